@@ -329,9 +329,23 @@ def check(case):
                             x = 0.0 if pr.priorMode.name == 'LOG' else 1.0
                     vec.append(x)
                 before = current()
+                # samplers hand over their own float64 array (nestle a row of its live points): the update reads it
+                given = np.array(vec, dtype=np.float64)
                 with np.errstate(all='ignore'):
-                    cut(out, 'update_model', opt.update_model, vec)
+                    cut(out, 'update_model', opt.update_model, given)
                 after = current()
+                out.applies('update-leaves-vector')
+                if not np.array_equal(given, np.array(vec, dtype=np.float64)):
+                    out.fail('update-leaves-vector', 'the vector handed to update_model was changed from %s to %s' % (vec, given.tolist()))
+                else:
+                    # ... and writing the same vector again changes nothing
+                    with np.errstate(all='ignore'):
+                        cut(out, 'update_model', opt.update_model, given)
+                    again = current()
+                    if any(again[x] != after[x] for x in order):
+                        bad = [x for x in order if again[x] != after[x]]
+                        out.fail('update-leaves-vector@second-write', 'writing the same vector twice: %s went from %s to %s'
+                                 % (bad, [after[x] for x in bad], [again[x] for x in bad]))
                 out.applies('update-sets-fitted')
                 fitted_plain = [n[4:] if n.startswith('log_') and n[4:] in order and n not in order else n for n in fitted]
                 alias_ = {'planet_distance': 'planet_sma', 'planet_sma': 'planet_distance'}
